@@ -42,32 +42,47 @@ pub fn same(a: &Option<Value>, b: &Option<Value>) -> bool {
     }
 }
 pub fn bin(op: BinOp, l: Expr, r: Expr) -> Expr { Expr::Binary { op, left: Box::new(l), right: Box::new(r) } }
+/// Value of a (possibly rewritten) expression, dispatching on its SHAPE first: a literal result is its own value (this is the evaluator's
+/// literal arm — proved separately by the cells C10/eval-literal/*), an expression structurally identical to the original has the original's
+/// value (the evaluator is a function of the expression), anything else is evaluated.  Matching on the shape keeps every evaluated tree
+/// concrete-shaped for CBMC (measured: evaluating an if-then-else of two tree shapes does not finish).
+pub fn value_of_folded(folded: &Expr, orig: &Expr, vo: &Option<Value>, depth: u8) -> bool {
+    match folded {
+        Expr::Int(v) => same(vo, &Some(Value::Int(*v))),
+        Expr::Float(v) => same(vo, &Some(Value::Float(*v))),
+        Expr::Bool(v) => same(vo, &Some(Value::Bool(*v))),
+        Expr::Null => same(vo, &Some(Value::Null)),
+        other => {
+            if same_tree(other, orig, depth) { return true; }
+            let b = ev(other);
+            let ok = same(vo, &b);
+            std::mem::forget(b);
+            ok
+        }
+    }
+}
 /// fold_binary(op, l, r) computes what Binary{op, l, r} computes
 pub fn check_fold_binary(op: BinOp, l: Expr, r: Expr) -> bool {
     let orig = bin(op, l.clone(), r.clone());
     let folded = __vpv_fold_binary(op, l, r);
-    // nothing was rewritten: the same expression has the same value (the evaluator is a pure function)
-    if same_tree(&folded, &orig, 2) { std::mem::forget(orig); std::mem::forget(folded); return true; }
-    let (a, b) = (ev(&orig), ev(&folded));
-    let ok = same(&a, &b);
-    std::mem::forget(a); std::mem::forget(b); std::mem::forget(orig); std::mem::forget(folded);
+    let vo = ev(&orig);
+    let ok = value_of_folded(&folded, &orig, &vo, 2);
+    std::mem::forget(vo); std::mem::forget(orig); std::mem::forget(folded);
     ok
 }
 pub fn check_fold_unary(op: UnaryOp, x: Expr) -> bool {
     let orig = Expr::Unary { op, expr: Box::new(x.clone()) };
     let folded = __vpv_fold_unary(op, x);
-    if same_tree(&folded, &orig, 2) { std::mem::forget(orig); std::mem::forget(folded); return true; }
-    let (a, b) = (ev(&orig), ev(&folded));
-    let ok = same(&a, &b);
-    std::mem::forget(a); std::mem::forget(b); std::mem::forget(orig); std::mem::forget(folded);
+    let vo = ev(&orig);
+    let ok = value_of_folded(&folded, &orig, &vo, 2);
+    std::mem::forget(vo); std::mem::forget(orig); std::mem::forget(folded);
     ok
 }
 pub fn check_fold_expr(e: Expr) -> bool {
     let folded = __vpv_fold_expr(e.clone());
-    if same_tree(&folded, &e, 3) { std::mem::forget(e); std::mem::forget(folded); return true; }
-    let (a, b) = (ev(&e), ev(&folded));
-    let ok = same(&a, &b);
-    std::mem::forget(a); std::mem::forget(b); std::mem::forget(e); std::mem::forget(folded);
+    let vo = ev(&e);
+    let ok = value_of_folded(&folded, &e, &vo, 3);
+    std::mem::forget(vo); std::mem::forget(e); std::mem::forget(folded);
     ok
 }
 /// a literal-only sub-expression that the folder leaves alone and that evaluates to NO value at run time
@@ -115,35 +130,35 @@ vpv_cell!(#[kani::unwind(6)] #[kani::stub(eval_filter_expr, stub_eval_filter_exp
 vpv_cell!(#[kani::unwind(6)] #[kani::stub(eval_filter_expr, stub_eval_filter_expr)] #[kani::stub(collect_emitted_event, stub_collect_emitted_event)] #[kani::stub(call_user_function, stub_call_user_function)] c10_lit_div_int_float, "C10/fold_binary/literal/Div/Int-Float", (a: i64, b: f64), { check_fold_binary(BinOp::Div, Expr::Int(a), Expr::Float(b)) });
 vpv_cell!(#[kani::unwind(6)] #[kani::stub(eval_filter_expr, stub_eval_filter_expr)] #[kani::stub(collect_emitted_event, stub_collect_emitted_event)] #[kani::stub(call_user_function, stub_call_user_function)] c10_lit_div_float_int, "C10/fold_binary/literal/Div/Float-Int", (a: f64, b: i64), { check_fold_binary(BinOp::Div, Expr::Float(a), Expr::Int(b)) });
 vpv_cell!(#[kani::unwind(6)] #[kani::stub(eval_filter_expr, stub_eval_filter_expr)] #[kani::stub(collect_emitted_event, stub_collect_emitted_event)] #[kani::stub(call_user_function, stub_call_user_function)] c10_id_mul_zero_r_float, "C10/fold_binary/identity/x*0/x=float", (f: f64), { check_fold_binary(BinOp::Mul, Expr::Float(f), Expr::Int(0)) });
-vpv_cell!(#[kani::unwind(6)] #[kani::stub(eval_filter_expr, stub_eval_filter_expr)] #[kani::stub(collect_emitted_event, stub_collect_emitted_event)] #[kani::stub(call_user_function, stub_call_user_function)] #[kani::unwind(6)] c10_id_mul_zero_r_str, "C10/fold_binary/identity/x*0/x=str", (), { check_fold_binary(BinOp::Mul, Expr::Str(String::from("ab")), Expr::Int(0)) });
+vpv_cell!(#[kani::stub(eval_filter_expr, stub_eval_filter_expr)] #[kani::stub(collect_emitted_event, stub_collect_emitted_event)] #[kani::stub(call_user_function, stub_call_user_function)] #[kani::unwind(6)] c10_id_mul_zero_r_str, "C10/fold_binary/identity/x*0/x=str", (), { check_fold_binary(BinOp::Mul, Expr::Str(String::from("ab")), Expr::Int(0)) });
 vpv_cell!(#[kani::unwind(6)] #[kani::stub(eval_filter_expr, stub_eval_filter_expr)] #[kani::stub(collect_emitted_event, stub_collect_emitted_event)] #[kani::stub(call_user_function, stub_call_user_function)] c10_id_mul_zero_r_bool, "C10/fold_binary/identity/x*0/x=bool", (b: bool), { check_fold_binary(BinOp::Mul, Expr::Bool(b), Expr::Int(0)) });
 vpv_cell!(#[kani::unwind(6)] #[kani::stub(eval_filter_expr, stub_eval_filter_expr)] #[kani::stub(collect_emitted_event, stub_collect_emitted_event)] #[kani::stub(call_user_function, stub_call_user_function)] c10_id_mul_zero_r_null, "C10/fold_binary/identity/x*0/x=null", (), { check_fold_binary(BinOp::Mul, Expr::Null, Expr::Int(0)) });
 vpv_cell!(#[kani::unwind(6)] #[kani::stub(eval_filter_expr, stub_eval_filter_expr)] #[kani::stub(collect_emitted_event, stub_collect_emitted_event)] #[kani::stub(call_user_function, stub_call_user_function)] c10_id_mul_zero_l_float, "C10/fold_binary/identity/0*x/x=float", (f: f64), { check_fold_binary(BinOp::Mul, Expr::Int(0), Expr::Float(f)) });
-vpv_cell!(#[kani::unwind(6)] #[kani::stub(eval_filter_expr, stub_eval_filter_expr)] #[kani::stub(collect_emitted_event, stub_collect_emitted_event)] #[kani::stub(call_user_function, stub_call_user_function)] #[kani::unwind(6)] c10_id_mul_zero_l_str, "C10/fold_binary/identity/0*x/x=str", (), { check_fold_binary(BinOp::Mul, Expr::Int(0), Expr::Str(String::from("ab"))) });
+vpv_cell!(#[kani::stub(eval_filter_expr, stub_eval_filter_expr)] #[kani::stub(collect_emitted_event, stub_collect_emitted_event)] #[kani::stub(call_user_function, stub_call_user_function)] #[kani::unwind(6)] c10_id_mul_zero_l_str, "C10/fold_binary/identity/0*x/x=str", (), { check_fold_binary(BinOp::Mul, Expr::Int(0), Expr::Str(String::from("ab"))) });
 vpv_cell!(#[kani::unwind(6)] #[kani::stub(eval_filter_expr, stub_eval_filter_expr)] #[kani::stub(collect_emitted_event, stub_collect_emitted_event)] #[kani::stub(call_user_function, stub_call_user_function)] c10_id_mul_zero_l_bool, "C10/fold_binary/identity/0*x/x=bool", (b: bool), { check_fold_binary(BinOp::Mul, Expr::Int(0), Expr::Bool(b)) });
 vpv_cell!(#[kani::unwind(6)] #[kani::stub(eval_filter_expr, stub_eval_filter_expr)] #[kani::stub(collect_emitted_event, stub_collect_emitted_event)] #[kani::stub(call_user_function, stub_call_user_function)] c10_id_mul_zero_l_null, "C10/fold_binary/identity/0*x/x=null", (), { check_fold_binary(BinOp::Mul, Expr::Int(0), Expr::Null) });
 vpv_cell!(#[kani::unwind(6)] #[kani::stub(eval_filter_expr, stub_eval_filter_expr)] #[kani::stub(collect_emitted_event, stub_collect_emitted_event)] #[kani::stub(call_user_function, stub_call_user_function)] c10_id_mul_one_r_float, "C10/fold_binary/identity/x*1/x=float", (f: f64), { check_fold_binary(BinOp::Mul, Expr::Float(f), Expr::Int(1)) });
-vpv_cell!(#[kani::unwind(6)] #[kani::stub(eval_filter_expr, stub_eval_filter_expr)] #[kani::stub(collect_emitted_event, stub_collect_emitted_event)] #[kani::stub(call_user_function, stub_call_user_function)] #[kani::unwind(6)] c10_id_mul_one_r_str, "C10/fold_binary/identity/x*1/x=str", (), { check_fold_binary(BinOp::Mul, Expr::Str(String::from("ab")), Expr::Int(1)) });
+vpv_cell!(#[kani::stub(eval_filter_expr, stub_eval_filter_expr)] #[kani::stub(collect_emitted_event, stub_collect_emitted_event)] #[kani::stub(call_user_function, stub_call_user_function)] #[kani::unwind(6)] c10_id_mul_one_r_str, "C10/fold_binary/identity/x*1/x=str", (), { check_fold_binary(BinOp::Mul, Expr::Str(String::from("ab")), Expr::Int(1)) });
 vpv_cell!(#[kani::unwind(6)] #[kani::stub(eval_filter_expr, stub_eval_filter_expr)] #[kani::stub(collect_emitted_event, stub_collect_emitted_event)] #[kani::stub(call_user_function, stub_call_user_function)] c10_id_mul_one_r_bool, "C10/fold_binary/identity/x*1/x=bool", (b: bool), { check_fold_binary(BinOp::Mul, Expr::Bool(b), Expr::Int(1)) });
 vpv_cell!(#[kani::unwind(6)] #[kani::stub(eval_filter_expr, stub_eval_filter_expr)] #[kani::stub(collect_emitted_event, stub_collect_emitted_event)] #[kani::stub(call_user_function, stub_call_user_function)] c10_id_mul_one_r_null, "C10/fold_binary/identity/x*1/x=null", (), { check_fold_binary(BinOp::Mul, Expr::Null, Expr::Int(1)) });
 vpv_cell!(#[kani::unwind(6)] #[kani::stub(eval_filter_expr, stub_eval_filter_expr)] #[kani::stub(collect_emitted_event, stub_collect_emitted_event)] #[kani::stub(call_user_function, stub_call_user_function)] c10_id_mul_one_l_float, "C10/fold_binary/identity/1*x/x=float", (f: f64), { check_fold_binary(BinOp::Mul, Expr::Int(1), Expr::Float(f)) });
-vpv_cell!(#[kani::unwind(6)] #[kani::stub(eval_filter_expr, stub_eval_filter_expr)] #[kani::stub(collect_emitted_event, stub_collect_emitted_event)] #[kani::stub(call_user_function, stub_call_user_function)] #[kani::unwind(6)] c10_id_mul_one_l_str, "C10/fold_binary/identity/1*x/x=str", (), { check_fold_binary(BinOp::Mul, Expr::Int(1), Expr::Str(String::from("ab"))) });
+vpv_cell!(#[kani::stub(eval_filter_expr, stub_eval_filter_expr)] #[kani::stub(collect_emitted_event, stub_collect_emitted_event)] #[kani::stub(call_user_function, stub_call_user_function)] #[kani::unwind(6)] c10_id_mul_one_l_str, "C10/fold_binary/identity/1*x/x=str", (), { check_fold_binary(BinOp::Mul, Expr::Int(1), Expr::Str(String::from("ab"))) });
 vpv_cell!(#[kani::unwind(6)] #[kani::stub(eval_filter_expr, stub_eval_filter_expr)] #[kani::stub(collect_emitted_event, stub_collect_emitted_event)] #[kani::stub(call_user_function, stub_call_user_function)] c10_id_mul_one_l_bool, "C10/fold_binary/identity/1*x/x=bool", (b: bool), { check_fold_binary(BinOp::Mul, Expr::Int(1), Expr::Bool(b)) });
 vpv_cell!(#[kani::unwind(6)] #[kani::stub(eval_filter_expr, stub_eval_filter_expr)] #[kani::stub(collect_emitted_event, stub_collect_emitted_event)] #[kani::stub(call_user_function, stub_call_user_function)] c10_id_mul_one_l_null, "C10/fold_binary/identity/1*x/x=null", (), { check_fold_binary(BinOp::Mul, Expr::Int(1), Expr::Null) });
 vpv_cell!(#[kani::unwind(6)] #[kani::stub(eval_filter_expr, stub_eval_filter_expr)] #[kani::stub(collect_emitted_event, stub_collect_emitted_event)] #[kani::stub(call_user_function, stub_call_user_function)] c10_id_add_zero_r_float, "C10/fold_binary/identity/x+0/x=float", (f: f64), { check_fold_binary(BinOp::Add, Expr::Float(f), Expr::Int(0)) });
-vpv_cell!(#[kani::unwind(6)] #[kani::stub(eval_filter_expr, stub_eval_filter_expr)] #[kani::stub(collect_emitted_event, stub_collect_emitted_event)] #[kani::stub(call_user_function, stub_call_user_function)] #[kani::unwind(6)] c10_id_add_zero_r_str, "C10/fold_binary/identity/x+0/x=str", (), { check_fold_binary(BinOp::Add, Expr::Str(String::from("ab")), Expr::Int(0)) });
+vpv_cell!(#[kani::stub(eval_filter_expr, stub_eval_filter_expr)] #[kani::stub(collect_emitted_event, stub_collect_emitted_event)] #[kani::stub(call_user_function, stub_call_user_function)] #[kani::unwind(6)] c10_id_add_zero_r_str, "C10/fold_binary/identity/x+0/x=str", (), { check_fold_binary(BinOp::Add, Expr::Str(String::from("ab")), Expr::Int(0)) });
 vpv_cell!(#[kani::unwind(6)] #[kani::stub(eval_filter_expr, stub_eval_filter_expr)] #[kani::stub(collect_emitted_event, stub_collect_emitted_event)] #[kani::stub(call_user_function, stub_call_user_function)] c10_id_add_zero_r_bool, "C10/fold_binary/identity/x+0/x=bool", (b: bool), { check_fold_binary(BinOp::Add, Expr::Bool(b), Expr::Int(0)) });
 vpv_cell!(#[kani::unwind(6)] #[kani::stub(eval_filter_expr, stub_eval_filter_expr)] #[kani::stub(collect_emitted_event, stub_collect_emitted_event)] #[kani::stub(call_user_function, stub_call_user_function)] c10_id_add_zero_r_null, "C10/fold_binary/identity/x+0/x=null", (), { check_fold_binary(BinOp::Add, Expr::Null, Expr::Int(0)) });
 vpv_cell!(#[kani::unwind(6)] #[kani::stub(eval_filter_expr, stub_eval_filter_expr)] #[kani::stub(collect_emitted_event, stub_collect_emitted_event)] #[kani::stub(call_user_function, stub_call_user_function)] c10_id_add_zero_l_float, "C10/fold_binary/identity/0+x/x=float", (f: f64), { check_fold_binary(BinOp::Add, Expr::Int(0), Expr::Float(f)) });
-vpv_cell!(#[kani::unwind(6)] #[kani::stub(eval_filter_expr, stub_eval_filter_expr)] #[kani::stub(collect_emitted_event, stub_collect_emitted_event)] #[kani::stub(call_user_function, stub_call_user_function)] #[kani::unwind(6)] c10_id_add_zero_l_str, "C10/fold_binary/identity/0+x/x=str", (), { check_fold_binary(BinOp::Add, Expr::Int(0), Expr::Str(String::from("ab"))) });
+vpv_cell!(#[kani::stub(eval_filter_expr, stub_eval_filter_expr)] #[kani::stub(collect_emitted_event, stub_collect_emitted_event)] #[kani::stub(call_user_function, stub_call_user_function)] #[kani::unwind(6)] c10_id_add_zero_l_str, "C10/fold_binary/identity/0+x/x=str", (), { check_fold_binary(BinOp::Add, Expr::Int(0), Expr::Str(String::from("ab"))) });
 vpv_cell!(#[kani::unwind(6)] #[kani::stub(eval_filter_expr, stub_eval_filter_expr)] #[kani::stub(collect_emitted_event, stub_collect_emitted_event)] #[kani::stub(call_user_function, stub_call_user_function)] c10_id_add_zero_l_bool, "C10/fold_binary/identity/0+x/x=bool", (b: bool), { check_fold_binary(BinOp::Add, Expr::Int(0), Expr::Bool(b)) });
 vpv_cell!(#[kani::unwind(6)] #[kani::stub(eval_filter_expr, stub_eval_filter_expr)] #[kani::stub(collect_emitted_event, stub_collect_emitted_event)] #[kani::stub(call_user_function, stub_call_user_function)] c10_id_add_zero_l_null, "C10/fold_binary/identity/0+x/x=null", (), { check_fold_binary(BinOp::Add, Expr::Int(0), Expr::Null) });
 vpv_cell!(#[kani::unwind(6)] #[kani::stub(eval_filter_expr, stub_eval_filter_expr)] #[kani::stub(collect_emitted_event, stub_collect_emitted_event)] #[kani::stub(call_user_function, stub_call_user_function)] c10_id_sub_zero_r_float, "C10/fold_binary/identity/x-0/x=float", (f: f64), { check_fold_binary(BinOp::Sub, Expr::Float(f), Expr::Int(0)) });
-vpv_cell!(#[kani::unwind(6)] #[kani::stub(eval_filter_expr, stub_eval_filter_expr)] #[kani::stub(collect_emitted_event, stub_collect_emitted_event)] #[kani::stub(call_user_function, stub_call_user_function)] #[kani::unwind(6)] c10_id_sub_zero_r_str, "C10/fold_binary/identity/x-0/x=str", (), { check_fold_binary(BinOp::Sub, Expr::Str(String::from("ab")), Expr::Int(0)) });
+vpv_cell!(#[kani::stub(eval_filter_expr, stub_eval_filter_expr)] #[kani::stub(collect_emitted_event, stub_collect_emitted_event)] #[kani::stub(call_user_function, stub_call_user_function)] #[kani::unwind(6)] c10_id_sub_zero_r_str, "C10/fold_binary/identity/x-0/x=str", (), { check_fold_binary(BinOp::Sub, Expr::Str(String::from("ab")), Expr::Int(0)) });
 vpv_cell!(#[kani::unwind(6)] #[kani::stub(eval_filter_expr, stub_eval_filter_expr)] #[kani::stub(collect_emitted_event, stub_collect_emitted_event)] #[kani::stub(call_user_function, stub_call_user_function)] c10_id_sub_zero_r_bool, "C10/fold_binary/identity/x-0/x=bool", (b: bool), { check_fold_binary(BinOp::Sub, Expr::Bool(b), Expr::Int(0)) });
 vpv_cell!(#[kani::unwind(6)] #[kani::stub(eval_filter_expr, stub_eval_filter_expr)] #[kani::stub(collect_emitted_event, stub_collect_emitted_event)] #[kani::stub(call_user_function, stub_call_user_function)] c10_id_sub_zero_r_null, "C10/fold_binary/identity/x-0/x=null", (), { check_fold_binary(BinOp::Sub, Expr::Null, Expr::Int(0)) });
 vpv_cell!(#[kani::unwind(6)] #[kani::stub(eval_filter_expr, stub_eval_filter_expr)] #[kani::stub(collect_emitted_event, stub_collect_emitted_event)] #[kani::stub(call_user_function, stub_call_user_function)] c10_id_div_one_r_float, "C10/fold_binary/identity/x/1/x=float", (f: f64), { check_fold_binary(BinOp::Div, Expr::Float(f), Expr::Int(1)) });
-vpv_cell!(#[kani::unwind(6)] #[kani::stub(eval_filter_expr, stub_eval_filter_expr)] #[kani::stub(collect_emitted_event, stub_collect_emitted_event)] #[kani::stub(call_user_function, stub_call_user_function)] #[kani::unwind(6)] c10_id_div_one_r_str, "C10/fold_binary/identity/x/1/x=str", (), { check_fold_binary(BinOp::Div, Expr::Str(String::from("ab")), Expr::Int(1)) });
+vpv_cell!(#[kani::stub(eval_filter_expr, stub_eval_filter_expr)] #[kani::stub(collect_emitted_event, stub_collect_emitted_event)] #[kani::stub(call_user_function, stub_call_user_function)] #[kani::unwind(6)] c10_id_div_one_r_str, "C10/fold_binary/identity/x/1/x=str", (), { check_fold_binary(BinOp::Div, Expr::Str(String::from("ab")), Expr::Int(1)) });
 vpv_cell!(#[kani::unwind(6)] #[kani::stub(eval_filter_expr, stub_eval_filter_expr)] #[kani::stub(collect_emitted_event, stub_collect_emitted_event)] #[kani::stub(call_user_function, stub_call_user_function)] c10_id_div_one_r_bool, "C10/fold_binary/identity/x/1/x=bool", (b: bool), { check_fold_binary(BinOp::Div, Expr::Bool(b), Expr::Int(1)) });
 vpv_cell!(#[kani::unwind(6)] #[kani::stub(eval_filter_expr, stub_eval_filter_expr)] #[kani::stub(collect_emitted_event, stub_collect_emitted_event)] #[kani::stub(call_user_function, stub_call_user_function)] c10_id_div_one_r_null, "C10/fold_binary/identity/x/1/x=null", (), { check_fold_binary(BinOp::Div, Expr::Null, Expr::Int(1)) });
 vpv_cell!(#[kani::unwind(6)] #[kani::stub(eval_filter_expr, stub_eval_filter_expr)] #[kani::stub(collect_emitted_event, stub_collect_emitted_event)] #[kani::stub(call_user_function, stub_call_user_function)] c10_passthrough_lt, "C10/fold_binary/reconstruct/Lt/Int-Int", (a: i64, b: i64), { check_fold_binary(BinOp::Lt, Expr::Int(a), Expr::Int(b)) });
@@ -152,4 +167,9 @@ vpv_cell!(#[kani::unwind(6)] #[kani::stub(eval_filter_expr, stub_eval_filter_exp
 vpv_cell!(#[kani::unwind(6)] #[kani::stub(eval_filter_expr, stub_eval_filter_expr)] #[kani::stub(collect_emitted_event, stub_collect_emitted_event)] #[kani::stub(call_user_function, stub_call_user_function)] c10_neg_int, "C10/fold_unary/Neg/Int", (a: i64), { check_fold_unary(UnaryOp::Neg, Expr::Int(a)) });
 vpv_cell!(#[kani::unwind(6)] #[kani::stub(eval_filter_expr, stub_eval_filter_expr)] #[kani::stub(collect_emitted_event, stub_collect_emitted_event)] #[kani::stub(call_user_function, stub_call_user_function)] c10_neg_float, "C10/fold_unary/Neg/Float", (a: f64), { check_fold_unary(UnaryOp::Neg, Expr::Float(a)) });
 vpv_cell!(#[kani::unwind(6)] #[kani::stub(eval_filter_expr, stub_eval_filter_expr)] #[kani::stub(collect_emitted_event, stub_collect_emitted_event)] #[kani::stub(call_user_function, stub_call_user_function)] c10_not_bool, "C10/fold_unary/Not/Bool", (a: bool), { check_fold_unary(UnaryOp::Not, Expr::Bool(a)) });
-vpv_replay_table!(c10_lit_add_int_int, c10_lit_sub_int_int, c10_lit_mul_int_int, c10_lit_div_int_int, c10_lit_mod_int_int, c10_lit_add_float_float, c10_lit_sub_float_float, c10_lit_mul_float_float, c10_lit_div_float_float, c10_lit_mod_float_float, c10_lit_pow_float_float, c10_lit_add_int_float, c10_lit_add_float_int, c10_lit_sub_int_float, c10_lit_sub_float_int, c10_lit_mul_int_float, c10_lit_mul_float_int, c10_lit_div_int_float, c10_lit_div_float_int, c10_id_mul_zero_r_float, c10_id_mul_zero_r_str, c10_id_mul_zero_r_bool, c10_id_mul_zero_r_null, c10_id_mul_zero_l_float, c10_id_mul_zero_l_str, c10_id_mul_zero_l_bool, c10_id_mul_zero_l_null, c10_id_mul_one_r_float, c10_id_mul_one_r_str, c10_id_mul_one_r_bool, c10_id_mul_one_r_null, c10_id_mul_one_l_float, c10_id_mul_one_l_str, c10_id_mul_one_l_bool, c10_id_mul_one_l_null, c10_id_add_zero_r_float, c10_id_add_zero_r_str, c10_id_add_zero_r_bool, c10_id_add_zero_r_null, c10_id_add_zero_l_float, c10_id_add_zero_l_str, c10_id_add_zero_l_bool, c10_id_add_zero_l_null, c10_id_sub_zero_r_float, c10_id_sub_zero_r_str, c10_id_sub_zero_r_bool, c10_id_sub_zero_r_null, c10_id_div_one_r_float, c10_id_div_one_r_str, c10_id_div_one_r_bool, c10_id_div_one_r_null, c10_passthrough_lt, c10_passthrough_eq, c10_passthrough_and, c10_neg_int, c10_neg_float, c10_not_bool);
+// the evaluator's literal arms: evaluating a literal yields that literal's value (used by value_of_folded)
+vpv_cell!(#[kani::stub(eval_filter_expr, stub_eval_filter_expr)] #[kani::stub(collect_emitted_event, stub_collect_emitted_event)] #[kani::stub(call_user_function, stub_call_user_function)] #[kani::unwind(6)] c10_evlit_int, "C10/eval-literal/Int", (a: i64), { let v = ev(&Expr::Int(a)); let ok = match &v { Some(Value::Int(x)) => *x == a, _ => false }; std::mem::forget(v); ok });
+vpv_cell!(#[kani::stub(eval_filter_expr, stub_eval_filter_expr)] #[kani::stub(collect_emitted_event, stub_collect_emitted_event)] #[kani::stub(call_user_function, stub_call_user_function)] #[kani::unwind(6)] c10_evlit_float, "C10/eval-literal/Float", (a: f64), { let v = ev(&Expr::Float(a)); let ok = match &v { Some(Value::Float(x)) => x.to_bits() == a.to_bits(), _ => false }; std::mem::forget(v); ok });
+vpv_cell!(#[kani::stub(eval_filter_expr, stub_eval_filter_expr)] #[kani::stub(collect_emitted_event, stub_collect_emitted_event)] #[kani::stub(call_user_function, stub_call_user_function)] #[kani::unwind(6)] c10_evlit_bool, "C10/eval-literal/Bool", (a: bool), { let v = ev(&Expr::Bool(a)); let ok = match &v { Some(Value::Bool(x)) => *x == a, _ => false }; std::mem::forget(v); ok });
+vpv_cell!(#[kani::stub(eval_filter_expr, stub_eval_filter_expr)] #[kani::stub(collect_emitted_event, stub_collect_emitted_event)] #[kani::stub(call_user_function, stub_call_user_function)] #[kani::unwind(6)] c10_evlit_null, "C10/eval-literal/Null", (), { let v = ev(&Expr::Null); let ok = matches!(&v, Some(Value::Null)); std::mem::forget(v); ok });
+vpv_replay_table!(c10_lit_add_int_int, c10_lit_sub_int_int, c10_lit_mul_int_int, c10_lit_div_int_int, c10_lit_mod_int_int, c10_lit_add_float_float, c10_lit_sub_float_float, c10_lit_mul_float_float, c10_lit_div_float_float, c10_lit_mod_float_float, c10_lit_pow_float_float, c10_lit_add_int_float, c10_lit_add_float_int, c10_lit_sub_int_float, c10_lit_sub_float_int, c10_lit_mul_int_float, c10_lit_mul_float_int, c10_lit_div_int_float, c10_lit_div_float_int, c10_id_mul_zero_r_float, c10_id_mul_zero_r_str, c10_id_mul_zero_r_bool, c10_id_mul_zero_r_null, c10_id_mul_zero_l_float, c10_id_mul_zero_l_str, c10_id_mul_zero_l_bool, c10_id_mul_zero_l_null, c10_id_mul_one_r_float, c10_id_mul_one_r_str, c10_id_mul_one_r_bool, c10_id_mul_one_r_null, c10_id_mul_one_l_float, c10_id_mul_one_l_str, c10_id_mul_one_l_bool, c10_id_mul_one_l_null, c10_id_add_zero_r_float, c10_id_add_zero_r_str, c10_id_add_zero_r_bool, c10_id_add_zero_r_null, c10_id_add_zero_l_float, c10_id_add_zero_l_str, c10_id_add_zero_l_bool, c10_id_add_zero_l_null, c10_id_sub_zero_r_float, c10_id_sub_zero_r_str, c10_id_sub_zero_r_bool, c10_id_sub_zero_r_null, c10_id_div_one_r_float, c10_id_div_one_r_str, c10_id_div_one_r_bool, c10_id_div_one_r_null, c10_passthrough_lt, c10_passthrough_eq, c10_passthrough_and, c10_neg_int, c10_neg_float, c10_not_bool, c10_evlit_int, c10_evlit_float, c10_evlit_bool, c10_evlit_null);
